@@ -307,6 +307,28 @@ int32 parseClientHelloExtensions(ssl_t *ssl, unsigned char **cp, unsigned short 
         }
     }
 
+# ifdef USE_STATELESS_SESSION_TICKETS
+    /* RFC 7627, 5.3: a session that did not use the extended master secret
+       must not be resumed by a ClientHello that offers the extension; the
+       server continues with a full handshake.  (For a ticket the flag of the
+       original session was left in require_extended_master_secret by
+       matrixUnlockSessionTicket; the opposite mismatch is the failure
+       below.) */
+    if ((ssl->flags & SSL_FLAGS_RESUMED) && ssl->sid != NULL &&
+        ssl->sid->sessionTicketState == SESS_TICKET_STATE_USING_TICKET &&
+        ssl->extFlags.require_extended_master_secret == 0 &&
+        ssl->extFlags.extended_master_secret == 1)
+    {
+        psTraceInfo("Ticket without extended master secret: full handshake\n");
+        ssl->flags &= ~SSL_FLAGS_RESUMED;
+        Memset(ssl->sec.masterSecret, 0x0, SSL_HS_MASTER_SIZE);
+        Memset(ssl->sid->masterSecret, 0x0, SSL_HS_MASTER_SIZE);
+        Memset(ssl->sessionId, 0, SSL_MAX_SESSION_ID_SIZE);
+        ssl->sessionIdLen = 0;
+        ssl->sid->sessionTicketState = SESS_TICKET_STATE_RECVD_EXT;
+    }
+# endif
+
     /* Handle the extensions that were missing or not what we wanted */
     if (ssl->extFlags.require_extended_master_secret == 1 &&
         ssl->extFlags.extended_master_secret == 0)
